@@ -643,9 +643,30 @@ func r13_3(c *Ctx, rule string) {
 		checkNoFollowFlag(c, rule, call)
 		a := call.Common().Args
 		_, isP := eng.Strip(a[1]).(*ssa.Parameter)
+		if isP && call.Parent() != fn {
+			// the helper's own path parameter: what it is handed is this
+			// function's parameter
+			restore := c.scope(fn)
+			rs := eng.ResolveAll(a[1])
+			restore()
+			isP = len(rs) == 1
+			if isP {
+				_, isP = eng.Strip(rs[0]).(*ssa.Parameter)
+			}
+		}
 		// element 0 from StatAtime, element 1 from StatMtime
 		okOrder := false
-		if sl, isS := a[2].(*ssa.Slice); isS {
+		// (the call may sit in a one-line helper shared with Utimes: then the
+		// times are what THIS function hands the helper)
+		times := a[2]
+		if _, isS := times.(*ssa.Slice); !isS {
+			restore := c.scope(fn)
+			if rs := eng.ResolveAll(times); len(rs) == 1 {
+				times = rs[0]
+			}
+			restore()
+		}
+		if sl, isS := times.(*ssa.Slice); isS {
 			if arr, isA := sl.X.(*ssa.Alloc); isA {
 				got := map[int64]string{}
 				for _, r := range eng.Referrers(arr) {
